@@ -54,7 +54,63 @@ func c06Sizes(tier fw.Tier) []int {
 		sizes = append(sizes, s.Count())
 	}
 	sizes = append(sizes, len(c06Alphabet)*3+len(c06HandCases)) // long-line family + hand-picked deep cases
+	sizes = append(sizes, c06EvCount(tier))                      // valid documents shaped for the evaluation commands
 	return sizes
+}
+
+// EV: valid documents whose VALUES steer the evaluation commands into their corners (the token families above
+// rarely get past the parser): record dates relative to the clock (today, yesterday, long ago), should-totals that
+// make the forecast end time representable / not representable, entry values much wider or narrower than the
+// record total, negative and zero totals, open ranges that can / cannot be closed.
+var c06EvEntries = []string{"1m", "-30m", "8:00 - 9:30", "100h", "<23:00 - 1:00>", "8:00 - ? #x", "-100h59m", "0m"}
+var c06EvShould = []string{"", " (8h!)", " (100h!)", " (-1h!)"}
+var c06EvDates = []string{"2022-06-15", "2022-06-14", "2022/01/01"} // fixedNow is 2022-06-15 12:00
+
+func c06EvSeqs(maxLen int) int {
+	n, p := 0, 1
+	for l := 0; l <= maxLen; l++ {
+		n += p
+		p *= len(c06EvEntries)
+	}
+	return n
+}
+
+func c06EvMaxLen(tier fw.Tier) int {
+	if tier == fw.Thorough {
+		return 3
+	}
+	return 2
+}
+
+func c06EvCount(tier fw.Tier) int {
+	first := len(c06EvDates) * len(c06EvShould) * c06EvSeqs(c06EvMaxLen(tier))
+	second := 1 + len(c06EvDates)*len(c06EvShould)*c06EvSeqs(1)
+	return first * second
+}
+
+func c06EvRecord(idx, maxLen int) string {
+	d := docgen.Radix(idx, len(c06EvDates), len(c06EvShould), c06EvSeqs(maxLen))
+	out := c06EvDates[d[0]] + c06EvShould[d[1]] + "\n"
+	k, l, p := d[2], 0, 1
+	for k >= p { // sequences are numbered shortest first
+		k -= p
+		p *= len(c06EvEntries)
+		l++
+	}
+	for j := 0; j < l; j++ {
+		out += "    " + c06EvEntries[k%len(c06EvEntries)] + "\n"
+		k /= len(c06EvEntries)
+	}
+	return out
+}
+
+func c06EvDoc(tier fw.Tier, i int) string {
+	second := 1 + len(c06EvDates)*len(c06EvShould)*c06EvSeqs(1)
+	text := c06EvRecord(i/second, c06EvMaxLen(tier))
+	if s := i % second; s > 0 {
+		text += "\n" + c06EvRecord(s-1, 1)
+	}
+	return text
 }
 
 // Inputs that need more tokens than the bound allows to reach deep code (sums of huge values, …).
@@ -106,6 +162,10 @@ func init() {
 			for i := sp.lo; i < sp.hi; i++ {
 				if sp.fam < len(spaces) {
 					c06Text(c, fmt.Sprintf("tok%d", sp.fam), i, spaces[sp.fam].At(i))
+					continue
+				}
+				if sp.fam == len(spaces)+1 {
+					c06Text(c, "ev", i, c06EvDoc(c.Tier, i))
 					continue
 				}
 				if i >= len(c06Alphabet)*3 {
@@ -289,8 +349,15 @@ func c06Commands(c *fw.Ctx, viol func(string, string), text string) {
 		}
 	}
 	for _, r := range runs {
-		for _, t := range []int{0, 1} {
+		for _, t := range []int{0, 1, 2} {
 			o := clidrv.Opts{Now: now}
+			if t == 2 {
+				// a third clock, one minute before midnight (forecasts and closings at the upper end of the day)
+				if !strings.Contains(r.name, "now") && !strings.Contains(r.name, "today") {
+					continue
+				}
+				o.Now = dateAt(2022, 6, 15, 23, 59)
+			}
 			if t == 1 {
 				// a second clock: the day of the file's first date at 00:00 (closing open ranges at the earliest instant)
 				if len(ref.Records) == 0 {
